@@ -13,7 +13,8 @@ from mc import explore
 ID = 'C05'
 
 KEYS = [('m', 'margin', False), ('p', 'padding', False), ('lh', 'line-height', True), ('z', 'z-index', True),
-        ('op', 'opacity', True), ('bd', 'border', False), ('c', 'color', False)]
+        ('op', 'opacity', True), ('bd', 'border', False), ('c', 'color', False),
+        ('P', 'padding', False), ('Lh', 'line-height', True)]          # a key names its snippet whatever its letter case
 SUFFIXES = ['', 'p', 'e', 'x', 'r', 'px', '%', 'vh']
 ALIAS = {'p': '%', 'e': 'em', 'x': 'ex', 'r': 'rem'}
 NUM_LITS = [('0', False), ('1', False), ('10', False), ('-5', False), ('.5', True), ('1.', True), ('1.25', True), ('-.5', True),
@@ -52,7 +53,7 @@ def describe(tier):
                  list(SYNTAX_FMT), b['deviations'], list(OPTION_SPACE)),
         nontrivial='the sequence has >= 2 values, or a color with a channel that is not a doubled digit / has alpha.',
         bounds=b,
-        assumptions=['4-, 5-, 7+-digit hex, #t, -0, more than 3 decimals, keyword values and stylesheet.json are left unspecified',
+        assumptions=['every joined batch is first expanded under wholly different options through a cache that the checked call shares', '4-, 5-, 7+-digit hex, #t, -0, more than 3 decimals, keyword values and stylesheet.json are left unspecified',
                      'no cache is used (C08); batching with + can only cost time: a disagreeing batch is re-run case by case'],
         explanation='Each batch is expanded by emmet.expand and every output line is compared with the reference rendering.',
     )
@@ -235,10 +236,22 @@ def with_unmatched(abbrs, where):
     return '+'.join(a)
 
 
+PRIME = {'stylesheet.intUnit': 'qi', 'stylesheet.floatUnit': 'qf', 'stylesheet.unitAliases': {'p': 'qp', 'e': 'qe', 'x': 'qx', 'r': 'qr'},
+         'stylesheet.shortHex': False, 'stylesheet.between': '=', 'stylesheet.after': '$'}
+
+
 def batch_ok(cases, abbrs, syntax, opts, where):
     o = dict((k, v) for k, v in opts.items() if v is not None)
+    joined = with_unmatched(abbrs, where)
+    # the same text is expanded first under wholly different unit / colour / punctuation options through a cache that the
+    # checked call then shares: nothing of the first call may show in the second
+    cache = {}
     try:
-        out = expand(with_unmatched(abbrs, where), {'type': 'stylesheet', 'syntax': syntax, 'options': o})
+        expand(joined, {'type': 'stylesheet', 'syntax': syntax, 'options': dict(PRIME), 'cache': cache})
+    except Exception:
+        pass
+    try:
+        out = expand(joined, {'type': 'stylesheet', 'syntax': syntax, 'options': o, 'cache': cache})
     except Exception:
         return False
     lines = out.split('\n')
